@@ -381,3 +381,47 @@ def impl_locale_cycle(case):
         return ["ok", json.loads(p.stdout.strip().split("\n")[-1])]
     finally:
         shutil.rmtree(work, ignore_errors=True)
+
+
+# ---- the .discinfo READER on arbitrary texts (model: load_di)
+def gen_discinfo_texts(rng, n):
+    """texts around the four-line format: written files, and files with lines missing, blank, quoted, padded, mistyped"""
+    out = []
+    for _ in range(n):
+        ts = rng.choice(["1440000000.123", "1.0", "12345.678901", "%d.5" % rng.randint(1, 2 * 10 ** 9), "0.5", "1440000000.12345"] * 3 +
+                        ["1440000000", "abc", "", "1.50", "01.5", "1e5", "nan", "-1.5", "1440000000.1234567890123", "x.y", "--"])
+        desc = rng.choice(["Fedora 22", "Red Hat Enterprise Linux 7.9", "x", "\"Fedora 22\"", "'quoted'", "\"half", "it's", "  padded  ", "",
+                           "a\tb", "café 1.0", "\"\"", "'\"mixed\"'", "Fedora\x0b22"])
+        arch = rng.choice(["x86_64", "ppc64le", " s390x ", "", "src", "a b"])
+        nums = rng.choice(["ALL", "1", "1,2,3", "2", "", " ALL ", "1, 2", "1,,2", "one", "1,two", "-1", "0", "ALL,1", "all", "007", " 3 ", "1,2,"])
+        lines = [ts, desc, arch, nums]
+        k = rng.random()
+        if k < 0.15:
+            lines = lines[:rng.randint(0, 3)]              # lines missing
+        elif k < 0.25:
+            lines = lines + [rng.choice(["", "extra", "5"])]
+        text = "\n".join(lines)
+        if rng.random() < 0.5:
+            text += "\n"
+        if rng.random() < 0.1:
+            text = text.replace("\n", "\n\n", 1)            # a blank line shifts everything
+        if rng.random() < 0.1:
+            text = " " + text.replace("\n", " \n ")
+        out.append({"text": text})
+    return out
+
+
+def impl_load_discinfo(case):
+    import productmd.discinfo as DI
+    o = DI.DiscInfo()
+    try:
+        o.loads(case["text"])
+    except EXC as e:
+        return exc_result(e)
+    except Exception as e:
+        return ["err", "Other:" + type(e).__name__]
+    try:
+        again = ["ok", o.dumps()]
+    except EXC as e:
+        again = exc_result(e)
+    return ["ok", [{"__float__": repr(o.timestamp)}, o.description, o.arch, o.disc_numbers, again]]
